@@ -65,10 +65,11 @@ FWD_CLASS = {"200": "F2xx", "204": "F2xx", "299": "F2xx", "200hdr": "F2xx", "302
 
 
 class Gen:
-    def __init__(self, rng):
+    def __init__(self, rng, nbits=3):
         self.rng = rng
         self.cases = []
         self.n = 0
+        self.nbits = nbits
 
     def nonce(self):
         self.n += 1
@@ -155,7 +156,7 @@ class Gen:
         for s in STATIC[route][1:]:
             self.put(route, "secret-second", self.signed(route, secret=s, body=base_body))
         # single-BIT mutations of every field
-        nbits = 3
+        nbits = self.nbits
         for field in ("body", "sig", "ts", "nonce", "path", "method"):
             for _ in range(nbits):
                 r = self.signed(route, body=base_body, target=route + "/bits")
@@ -253,7 +254,7 @@ class Gen:
             self.add(route, "basic-two-headers-garbage-first", "POST", route, hdr("Basic xxxx") + hdr(ok), b"{}")
             self.add(route, "basic-header-case", "POST", route, [("aUTHORIZATION", ok)], b"{}")
             self.add(route, "basic-proxy-authorization", "POST", route, [("Proxy-Authorization", ok)], b"{}")
-            for _ in range(6):   # random single-bit flips of the valid header value
+            for _ in range(2 * self.nbits):   # random single-bit flips of the valid header value
                 b = bytearray(ok.encode()); i = self.rng.randrange(len(b) * 8); b[i // 8] ^= 1 << (i % 8)
                 self.add(route, "basic-bit", "POST", route, hdr(bytes(b)), b"{}")
 
@@ -291,12 +292,16 @@ class Gen:
 
 
 def build_cases(rng, tier):
-    g = Gen(rng)
+    g = Gen(rng, 3 if tier == "quick" else 12)
     g.hmac_family("/hm")
     g.hmac_family("/hm2", light=(tier == "quick"))
     if tier != "quick":
         g.hmac_family("/fan", light=True)
         g.hmac_family("/rot", light=True)
+        for _ in range(4):          # further rounds: fresh random bodies and bit positions
+            g.hmac_family("/hm")
+            g.hmac_family("/hm2")
+        g.hmac_family("/fan")
     g.rotation_family("/rot")
     g.rotation_family("/rot2")
     g.basic_family("/basic")
